@@ -56,6 +56,24 @@ func newEngine(c *Case) *engine {
 	return &engine{c: c, objs: map[int][]*hist.Obj{}, expected: map[string]string{}}
 }
 
+// pristine: the library keeps objects for re-use (loaders, buffers) in sync.Pools; two collections
+// empty them, so that what is built next starts from nothing an earlier call could have left behind.
+func pristine() {
+	runtime.GC()
+	runtime.GC()
+}
+
+// precompute works out what a freshly built object returns for every operation of every spec
+// before the history begins, each in a process state no earlier call has touched.
+func (e *engine) precompute() {
+	for i, sp := range e.c.Pool {
+		pristine() // (once per spec: what the operations of one spec leave behind meets objects of the same spec only)
+		for _, op := range hist.OpsSequential(sp) {
+			e.want(i, op)
+		}
+	}
+}
+
 func (e *engine) want(spec int, op string) string {
 	k := fmt.Sprintf("%d/%s", spec, op)
 	if w, ok := e.expected[k]; ok {
@@ -150,6 +168,7 @@ func TestHistories(t *testing.T) {
 			run.Label("pool-with-roots-sharing-type-objects-but-not-their-definitions")
 		}
 		e := newEngine(c)
+		e.precompute()
 		maxSteps := run.Scale(12, 40)
 		steps := rapid.IntRange(4, maxSteps).Draw(t, "steps")
 		repeats, interleaved, shared := 0, false, 0
